@@ -791,6 +791,10 @@ func encodeLosslessToWriter(w io.Writer, img image.Image, opts *EncoderOptions) 
 			// Note: argbPool.Put(ab) moved after EncodeToWriter returns
 			// to avoid use-after-pool-put (V7 security fix).
 			// Write simple RIFF/WEBP header directly to w.
+			if uint64(bitstreamSize)+20+1 > MaxInputSize {
+				// Decode, DecodeConfig and GetFeatures refuse larger inputs.
+				return fmt.Errorf("webp: output too large (%d bytes of image data, max file size %d)", bitstreamSize, MaxInputSize)
+			}
 			payloadSize := uint32(bitstreamSize)
 			paddedPayload := payloadSize + (payloadSize & 1)
 			riffSize := 4 + container.ChunkHeaderSize + paddedPayload
@@ -1006,6 +1010,10 @@ func writeRIFF(w io.Writer, fourcc uint32, bitstream, alphaData []byte, width, h
 
 // writeRIFFSimple writes the simple RIFF/WEBP container (no VP8X, no ALPH).
 func writeRIFFSimple(w io.Writer, fourcc uint32, bitstream []byte) error {
+	if uint64(len(bitstream))+20+1 > MaxInputSize {
+		// Decode, DecodeConfig and GetFeatures refuse larger inputs.
+		return fmt.Errorf("webp: output too large (%d bytes of image data, max file size %d)", len(bitstream), MaxInputSize)
+	}
 	payloadSize := uint32(len(bitstream))
 	paddedPayload := payloadSize + (payloadSize & 1) // RIFF requires even alignment
 
